@@ -18,6 +18,8 @@ THEOREMS = [
     "Aio.C07.attempts_counted",
     "Aio.C07.no_leak",
     "Aio.C07.close_closes_all",
+    "Aio.C07.every_open_connection_tracked",
+    "Aio.C07.cleanup_partitions",
     "Aio.C07.release_waiter_wakes",
     "Aio.C07.no_forgotten_waiter_partial",
     "Aio.C07.f7_limit_exceeded_unfixed",
@@ -30,7 +32,8 @@ RULE = ("a case = (limit, limit_per_host, key of each of N tasks, label sequence
         "callback) / attempt ok|fail / cancel / connect-timeout / release to pool|close / idle connection lost / connector "
         "close / shuffle order. Generator classes: guided walk over enabled labels, saturate (limit 1, one key, cancels of "
         "woken waiters), per-host (limit_per_host 1, two keys), reuse (pooling, fast path, lost idle connections), close-at-"
-        "any-step, close-in-hook (close() while a task is suspended in each of the five trace hooks, before/after the callback "
+        "any-step, keepalive (several idle connections per host released at different virtual times, time passing, the "
+        "keep-alive sweep firing in between, reuse, close), close-in-hook (close() while a task is suspended in each of the five trace hooks, before/after the callback "
         "returns, then everything runs to completion; the run fails as machinery error if one hook is never hit), traced (suspending on_connection_reuseconn/queued_start/queued_end/create_start/create_end callbacks "
         "resolved by label, any subset), noise (arbitrary labels incl. disabled ones), scripted scenarios; thorough adds the exhaustive exploration "
         "of every reachable state and transition for N<=3 tasks (all placements of cancel/fail/close). Plus 810 ClientSession-level "
@@ -40,7 +43,9 @@ TRUSTED_BASE = [
     "the hand-written model AioModel/C07.lean is tied to connector.py only by trace conformance (state projection after every label)",
     "CPython asyncio semantics assumed by the model: ready callbacks run FIFO; Task.cancel() cancels a pending awaited future or sets "
     "must_cancel; asyncio.timeout converts its own cancellation into TimeoutError (exercised by the correspondence, not proved)",
-    "keep-alive expiry/_cleanup timers, force_close and SSL abort are not modelled; trace callbacks are modelled as await points "
+    "force_close and SSL abort/_cleanup_closed are not modelled; the keep-alive clock is a label (`monotonic` replaced by a "
+    "virtual clock) and the sweep `_cleanup()` may fire at any time while its timer is armed (a superset of the real timer "
+    "schedule); trace callbacks are modelled as await points "
     "(one Trace per request, each selected hook suspends once); the ClientSession/ClientResponse layer (release of the Connection "
     "when the request writer is still pending) is NOT modelled in Lean: 810 session-level scenarios are judged by a direct oracle only",
     "random.shuffle in _release_waiter is replaced by a label-given order (every order is a possible shuffle result)",
@@ -140,6 +145,23 @@ class Judge:
                 if left:
                     self.found.setdefault("leak", (idx, ("on-closed-connector" if closed else "+".join(left)),
                                                    f"all requests over, still counted: {left}"))
+        # (5) conservation: every open connection the connector created is exactly one of
+        #     {counted in _acquired, idle in the pool, still in connect()'s hands inside on_connection_create_end}
+        pend = {p.created_by[t] for t, (letter, _) in p.trace_wait.items() if letter == "e"}
+        acq = {id(x) for x in p.conn._acquired}
+        idl = [id(pr) for q in p.conn._conns.values() for pr, _ in q]
+        for tr in p.transports:
+            if tr.closing:
+                continue
+            n = (id(tr.proto) in acq) + idl.count(id(tr.proto)) + (tr.cid in pend)
+            if n == 0 and not (p.conn._closed):
+                how = ("orphaned-by-cancellation-in-trace-callback" if "cancelled-in-trace-callback" in self.flags
+                       else "dropped-by-keepalive-sweep" if lab == "S" else "open-connection-untracked")
+                self.found.setdefault("conserve", (idx, how, f"connection {tr.cid} is open but neither in _acquired nor in the "
+                                                              f"idle pool (after label {lab})"))
+            elif n > 1:
+                self.found.setdefault("conserve2", (idx, "open-connection-tracked-twice",
+                                                    f"connection {tr.cid} is tracked {n} times (acquired/idle/new)"))
         # (4) close closes every connection created
         # (a connection whose on_connection_create_end callback has not returned yet is still in connect()'s hands)
         pending_new = {p.created_by[t] for t, (letter, _) in p.trace_wait.items() if letter == "e"}
@@ -156,13 +178,22 @@ class Judge:
 
 
 SIG = {"limit": "C07/limit-exceeded/", "stuck": "C07/lost-wakeup/", "parked-closed": "C07/close/",
-       "leak": "C07/leak/", "close-open": "C07/close/", "close-waiter": "C07/close/", "raised": "C07/connect-raised/"}
+       "leak": "C07/leak/", "close-open": "C07/close/", "close-waiter": "C07/close/", "raised": "C07/connect-raised/",
+       "conserve": "C07/conservation/", "conserve2": "C07/conservation/"}
+
+
+def signature(clause, how):
+    # the orphan left by a cancellation inside a trace callback is one finding (C07-F23), whether it is noticed
+    # when it drops out of the bookkeeping or when close() fails to close it
+    if how == "orphaned-by-cancellation-in-trace-callback":
+        return "C07/close/" + how
+    return SIG[clause] + how
 
 
 def run_case(case, want_proj=True, observe=None):
     """-> (projections, judge, enabled-at-end)"""
     limit, lph, keys, labels = case["limit"], case["lph"], case["keys"], case["labels"]
-    p = Pool(limit, lph, keys, case.get("mask", 0))
+    p = Pool(limit, lph, keys, case.get("mask", 0), case.get("ka", 15))
     j = Judge(limit, lph)
     out = []
     try:
@@ -200,19 +231,23 @@ def report(ctx, case, j, budget):
     """turn the judge's raw findings into signatures (after minimisation)"""
     for clause in list(j.found):
         ctx.hit("oracle-raw:" + clause)
-        if budget.get(clause, 0) <= 0:
+        # the minimisation budget is per (clause, preliminary classification), so that the many instances of a known
+        # finding cannot use up the budget of a different violation of the same clause
+        bkey = (clause, j.found[clause][1])
+        left = budget.setdefault(bkey, budget.get(clause, 0))
+        if left <= 0:
             continue
-        budget[clause] -= 1
+        budget[bkey] = left - 1
         small = shrink(case, clause)
         _, j2 = run_case(small, want_proj=False)
         if clause not in j2.found:
             continue
         idx, how, detail = j2.found[clause]
-        ctx.violation(SIG[clause] + how, small, detail + f" after label #{idx} of {' '.join(small['labels'])}")
+        ctx.violation(signature(clause, how), small, detail + f" after label #{idx} of {' '.join(small['labels'])}")
 
 
 # ------------------------------------------------------------------------------- generators
-WEIGHTS = {"k": 4.0, "s": 3.0, "o": 3.0, "f": 0.6, "c": 0.8, "m": 0.3, "r": 1.5, "x": 1.0, "l": 0.3, "C": 0.04, "t": 3.0}
+WEIGHTS = {"k": 4.0, "s": 3.0, "o": 3.0, "f": 0.6, "c": 0.8, "m": 0.3, "r": 1.5, "x": 1.0, "l": 0.3, "C": 0.04, "t": 3.0, "S": 0.5}
 PROFILES = {
     "guided": {},
     "saturate": {"c": 2.5, "m": 0.8, "x": 2.0, "r": 0.6, "s": 4.0},
@@ -221,6 +256,8 @@ PROFILES = {
     "close": {"C": 0.5},
     "traced": {"s": 5.0, "t": 2.0, "c": 1.2, "r": 2.5},
     "traced-close": {"C": 0.4, "c": 1.2},
+    # several idle connections per host released at different times, the keep-alive sweep in between, reuse, close
+    "keepalive": {"r": 6.0, "x": 0.3, "s": 4.0, "o": 5.0, "S": 2.5, "C": 0.08, "c": 0.2, "m": 0.05, "f": 0.2, "l": 0.4},
     # close() is called while a task is suspended in one chosen trace hook (see walk)
     "close-in-hook": {"s": 5.0, "t": 0.6, "r": 3.0, "x": 1.5, "c": 0.3, "m": 0.1, "C": 0.001},
 }
@@ -229,6 +266,10 @@ HOOK_BITS = {"r": 0, "q": 1, "Q": 2, "s": 3, "e": 4}
 
 def gen_params(rng, profile):
     """-> (limit, limit_per_host, keys, mask of suspending trace hooks)"""
+    if profile == "keepalive":
+        n = rng.randint(3, 6)
+        keys = [0] * n if rng.random() < 0.6 else [rng.randrange(2) for _ in range(n)]
+        return rng.choice([0, 3, 4, 6]), rng.choice([0, 0, 3]), keys, (31 if rng.random() < 0.1 else 0)
     if profile == "close-in-hook":
         n = rng.randint(2, 4)
         return 1, rng.choice([0, 0, 1]), [0] * n if rng.random() < 0.8 else [rng.randrange(2) for _ in range(n)], 0
@@ -263,9 +304,11 @@ def walk(rng, profile, judge_cb=None, hook=None):
     if hook is not None:
         mask = (1 << HOOK_BITS[hook]) | (rng.randrange(32) if rng.random() < 0.4 else 0)
     phase = 0
+    ka = rng.choice([10, 15, 3]) if profile == "keepalive" else 15
+    p_adv = 0.22 if profile == "keepalive" else 0.02
     nk = max(keys) + 1
     w = dict(WEIGHTS); w.update(PROFILES[profile])
-    p = Pool(limit, lph, keys, mask)
+    p = Pool(limit, lph, keys, mask, ka)
     j = Judge(limit, lph)
     labels, out = [], []
     try:
@@ -275,6 +318,8 @@ def walk(rng, profile, judge_cb=None, hook=None):
                 lab = first
             elif rng.random() < w.get("p", 0.3) / 10:
                 lab = "p" + ".".join(map(str, rng.sample(range(nk), rng.randint(0, nk))))
+            elif phase != 1 and rng.random() < p_adv:
+                lab = "a" + str(rng.choice([1, 2, 4, 7, 11, 16]))
             else:
                 en = p.enabled()
                 if not en:
@@ -300,7 +345,7 @@ def walk(rng, profile, judge_cb=None, hook=None):
             labels.append(lab)
             out.append(p.project())
             j(p, lab, i)
-        return {"limit": limit, "lph": lph, "mask": mask, "keys": keys, "labels": labels}, out, j
+        return {"limit": limit, "lph": lph, "mask": mask, "ka": ka, "keys": keys, "labels": labels}, out, j
     finally:
         p.dispose()
 
@@ -340,6 +385,15 @@ SCRIPTED = [
     # three requests, one slot, on_connection_create_start suspends: only one may pass the capacity check
     {"limit": 1, "lph": 0, "mask": 8, "keys": [0, 0, 0], "labels": L("p0 s0 s1 s2 k k k t0 t1 t2 k k k o0 k x0 k k")},
     {"limit": 0, "lph": 1, "mask": 31, "keys": [0, 0, 0], "labels": L("p0 s0 k t0 k o0 k t0 k s1 s2 k k t1 t2 k k r0 k t1 k t1 k k t2 k")},
+    # keep-alive: three idle connections of one host released at t=0,4,8 (keep-alive 10); sweep at t=12 (mixed
+    # expired / fresh), reuse, sweep again, close
+    {"limit": 3, "lph": 0, "ka": 10, "keys": [0, 0, 0, 0], "labels":
+     L("p0 s0 s1 s2 k k k o0 o1 o2 k k k r0 a4 r1 a4 r2 a4 S s3 k r3 a7 S a11 S C")},
+    {"limit": 0, "lph": 0, "ka": 10, "keys": [0, 1, 0, 1], "labels":
+     L("p0.1 s0 s1 s2 s3 k k k k o0 o1 o2 o3 k k k k r0 r1 a6 r2 r3 a6 S a6 S C")},
+    # _get meets an expired and a lost connection before a fresh one
+    {"limit": 3, "lph": 0, "ka": 10, "keys": [0, 0, 0, 0], "labels":
+     L("p0 s0 s1 s2 k k k o0 o1 o2 k k k r0 a6 r1 l1 a6 r2 s3 k C")},
     # close() while a task is suspended in each trace hook; the callback then returns and connect() finishes
     {"limit": 1, "lph": 0, "mask": 16, "keys": [0, 0], "labels": L("p0 s0 k o0 k C t0 k")},          # create_end
     {"limit": 1, "lph": 1, "mask": 16, "keys": [0, 0], "labels": L("p0 s0 k o0 k t0 C k s1 k")},     # create_end, returned first
@@ -354,7 +408,7 @@ SCRIPTED = [
 
 
 def model_line(fx, case):
-    return (f"run {fx} {case['limit']} {case['lph']} {case.get('mask', 0)} {'.'.join(map(str, case['keys']))} "
+    return (f"run {fx} {case['limit']} {case['lph']} {case.get('mask', 0)} {case.get('ka', 15)} {'.'.join(map(str, case['keys']))} "
             f"{' '.join(case['labels'])}")
 
 
@@ -374,11 +428,11 @@ def detect_fixes():
 
 
 # ------------------------------------------------------------------------------- exhaustive small scope
-def explore(ctx, fx, limit, lph, keys, perms, budget, max_states, mask=0):
+def explore(ctx, fx, limit, lph, keys, perms, budget, max_states, mask=0, ka=None):
     """every reachable state (identified by its full projection + shuffle order) and every transition
     of the real connector for the given tasks; each transition is compared with the model and judged"""
     nk = max(keys) + 1
-    base = {"limit": limit, "lph": lph, "mask": mask, "keys": keys}
+    base = {"limit": limit, "lph": lph, "mask": mask, "ka": ka or 15, "keys": keys}
     init_lab = "p" + ".".join(map(str, range(nk)))
     seen = {}
     frontier = [[init_lab]]
@@ -387,25 +441,27 @@ def explore(ctx, fx, limit, lph, keys, perms, budget, max_states, mask=0):
     while frontier and n_states < max_states:
         nxt = []
         for path in frontier:
-            p = Pool(limit, lph, keys, mask)
+            p = Pool(limit, lph, keys, mask, ka or 15)
             try:
                 for lab in path:
                     p.do(lab)
                 en = [e for e in p.enabled() if e[0] != "m"]
+                if ka and p.clock < 2 * ka:      # time may pass (bounded), in steps of 0.6 keep-alive periods
+                    en.append("a" + str(max(1, (ka * 3) // 5)))
                 cur_perm = p.shuf.perm
             finally:
                 p.dispose()
             en += ["p" + ".".join(map(str, q)) for q in perms if list(q) != cur_perm]
             for lab in en:
                 case = {**base, "labels": path + [lab]}
-                p = Pool(limit, lph, keys, mask)
+                p = Pool(limit, lph, keys, mask, ka or 15)
                 j = Judge(limit, lph)
                 try:
                     for i, l2 in enumerate(case["labels"]):
                         p.do(l2)
                         j(p, l2, i)
                     proj = p.project()
-                    key = proj + " perm=" + ".".join(map(str, p.shuf.perm)) + " fl=" + ",".join(sorted(j.flags))
+                    key = proj + f" clock={p.clock}" + " used=" + ",".join(str(t0) for q in p.conn._conns.values() for _, t0 in q) + " perm=" + ".".join(map(str, p.shuf.perm)) + " fl=" + ",".join(sorted(j.flags))
                 finally:
                     p.dispose()
                 edges.append((case, proj))
@@ -430,7 +486,7 @@ def check(ctx):
     fx = detect_fixes()
     ctx.extra["fixes_detected(f7,f8,race,close,trclose)"] = fx
     ctx.hit("fixes:" + fx)
-    budget = {c: (40 if ctx.quick else 150) for c in SIG}
+    budget = {c: (15 if ctx.quick else 60) for c in SIG}
     cases = []
 
     for c in SCRIPTED:
@@ -438,6 +494,7 @@ def check(ctx):
         cases.append((c, out, j, "scripted"))
     plan = [("guided", 800), ("saturate", 600), ("perhost", 600), ("reuse", 500), ("close", 400), ("traced", 1100),
             ("traced-close", 400)]
+    plan.append(("keepalive", 700))
     hook_plan = [(h, 120) for h in "rqQse"]
     mult = 1 if ctx.quick else 12
     for prof, n in plan:
@@ -492,10 +549,13 @@ def check(ctx):
         # with suspending trace hooks (every hook; create_start only; queued_start+queued_end)
         scopes += [(1, 0, [0, 0], 31), (0, 1, [0, 0], 31), (1, 1, [0, 1], 31), (1, 0, [0, 0, 0], 8), (1, 0, [0, 0, 0], 6),
                    (1, 0, [0, 0, 0], 1)]
-        for limit, lph, keys, mask in scopes:
+        scopes = [(a, b, c, d, None) for a, b, c, d in scopes]
+        # with the keep-alive clock (time may pass twice the keep-alive timeout, the sweep may fire whenever armed)
+        scopes += [(0, 0, [0, 0], 0, 10), (2, 0, [0, 0, 0], 0, 10), (0, 0, [0, 1, 0], 0, 5)]
+        for limit, lph, keys, mask, ka in scopes:
             nk = max(keys) + 1
             perms = list(itertools.permutations(range(nk))) if nk > 1 else []
-            ns, ne, done = explore(ctx, fx, limit, lph, keys, perms, budget, max_states=9000, mask=mask)
+            ns, ne, done = explore(ctx, fx, limit, lph, keys, perms, budget, max_states=9000, mask=mask, ka=ka)
             tot_s += ns; tot_e += ne
             complete = complete and done
             ctx.hit("explore:" + ("complete" if done else "truncated"))
@@ -527,4 +587,4 @@ def replay(ctx, case):
         return
     _, j = run_case(case, want_proj=False)
     for clause, (idx, how, detail) in j.found.items():
-        ctx.violation(SIG[clause] + how, case, detail + f" after label #{idx}")
+        ctx.violation(signature(clause, how), case, detail + f" after label #{idx}")
